@@ -39,6 +39,8 @@ static int cmd_run(int argc, char **argv) {
     std::string out = arg_of(argc, argv, "--out", "/verif/out/tmp");
     std::string wname = arg_of(argc, argv, "--worker", "0");
     int max_viol = atoi(arg_of(argc, argv, "--max-violations", "3").c_str());
+    std::string hashes = arg_of(argc, argv, "--hashes", "");   // determinism self-test: one line per run (index, event-log hash, behaviour signature, verdict)
+    FILE *hf = hashes.empty() ? nullptr : fopen(hashes.c_str(), "w");
     std::set<std::string> excluded;
     { std::string k = arg_of(argc, argv, "--exclude", ""); size_t pos = 0; while (!k.empty() && pos <= k.size()) { size_t e = k.find(',', pos); if (e == std::string::npos) e = k.size(); if (e > pos) excluded.insert(k.substr(pos, e - pos)); pos = e + 1; } }
     if (!is_known_property(prop)) { fprintf(stderr, "unknown property %s\n", prop.c_str()); return 2; }
@@ -61,6 +63,7 @@ static int cmd_run(int argc, char **argv) {
         Verdict v = evaluate_plan(p, &agg);
         if (getenv("VERIF_SLOW")) { double dt = now_s() - t_run; if (dt > atof(getenv("VERIF_SLOW"))) fprintf(stderr, "SLOW idx=%llu %.3fs ops=%zu bytes=%zu scenario=%s\n", (unsigned long long) idx, dt, p.ops.size(), p.size_measure(), p.scenario.c_str()); }
         agg.runs++; done++;
+        if (hf) fprintf(hf, "%llu %016llx %016llx %d %d\n", (unsigned long long) idx, (unsigned long long) v.hash, (unsigned long long) v.sig, v.executions, v.violated ? 1 : 0);
         if (v.nontrivial) { agg.nontrivial++; if (agg.sigs.size() < 2000000) agg.sigs.insert(v.sig); }
         if (samples_written < 2 && v.nontrivial && p.serialize().size() < 6000) {
             write_file(out + strfmt("/sample-%s-%llu.plan", wname.c_str(), (unsigned long long) samples_written), p.serialize()); samples_written++;
@@ -82,6 +85,7 @@ static int cmd_run(int argc, char **argv) {
         for (uint64_t s : agg.sigs) bin.append((const char *) &s, 8);
         write_file(out + "/sigs-" + wname + ".bin", bin);
     }
+    if (hf) fclose(hf);
     printf("AGG %s\n", agg.to_json().c_str());
     printf("END next=%llu wall=%.3f\n", (unsigned long long) idx, now_s() - t0);
     fflush(stdout);
